@@ -164,6 +164,40 @@ func main() {
 		}
 	}
 
+	// systematic: a valid UUID text decorated with the prefixes / suffixes / wrappers other UUID parsers accept
+	// (RFC 4122 URN form, braces, quotes, 0x, blanks, BOM) - ParseUUID must reject all of them
+	{
+		core := "486f3a88-775b-11e3-ae07-d231feb1dc81"
+		plain := "486f3a88775b11e3ae07d231feb1dc81"
+		pre := []string{"urn:uuid:", "URN:UUID:", "urn:", "uuid:", "{", "(", "[", "\"", "'", "0x", "0X", " ", "\t", "\n", "\ufeff", "+", "--", "#"}
+		suf := []string{"}", ")", "]", "\"", "'", " ", "\n", "\r\n", "\x00", ";", ","}
+		var ss []string
+		for _, b := range []string{core, plain} {
+			for _, p := range pre {
+				ss = append(ss, p+b)
+			}
+			for _, q := range suf {
+				ss = append(ss, b+q)
+			}
+			ss = append(ss, "{"+b+"}", "urn:uuid:"+b+"}", "\""+b+"\"", b+b, b[:len(b)-1], b+"0")
+		}
+		for _, s := range ss {
+			p, err := gocql.ParseUUID(s)
+			idx := o.Case("parse-decorated", true, fmt.Sprintf("CParse %s %s", hlib.RuneList(s), hlib.OptBytes(p[:], err == nil)))
+			ok, even := specAccepts(s)
+			if err == nil && !ok {
+				o.Violate(idx, "parse-accepts-invalid", "", fmt.Sprintf("ParseUUID(%q) accepted a string that is not 32 hex digits plus hyphens", s), nil)
+			}
+			if err != nil && ok && even {
+				o.Violate(idx, "parse-rejects-valid", "", fmt.Sprintf("ParseUUID(%q) rejected 32 hex digits with byte-separating hyphens: %v", s, err), nil)
+			}
+			var u gocql.UUID
+			if e2 := u.UnmarshalText([]byte(s)); (e2 == nil) != (err == nil) || (e2 == nil && u != p) {
+				o.Violate(idx, "unmarshaltext-differs-from-parse", "", fmt.Sprintf("UnmarshalText(%q) = %v, %v but ParseUUID = %v, %v", s, u, e2, p, err), nil)
+			}
+		}
+	}
+
 	// TimeUUIDWith / timestamps
 	for i := 0; i < n; i++ {
 		var t int64
